@@ -35,7 +35,10 @@ def units(tier, seed):
             cost = 6
         if spec["family"] == "cyclic":
             cost = 1 + spec["n"] / 8
-        out.append({"unit": f"{spec['family']}#{spec['id']}", "spec": spec, "cost": cost})
+        # same family, same (n, k): built and used one after the other in one process
+        out.append({"unit": f"{spec['family']}#{spec['id']}", "spec": spec, "cost": cost, "group": "%s:%d:%d" % ((spec["family"],) + tuple(cat.nk(spec)))})
+    for grp in cat.big_groups(tier, seed):
+        out.append({"unit": f"group#{grp['id']}", "spec": grp, "cost": 24})
     return out
 
 
@@ -43,6 +46,12 @@ def run_unit(ctx, u):
     import torch
 
     spec = u["spec"]
+    if spec["family"] == "group":
+        # same-shaped objects wider than a machine word, built and used one after the other in this process;
+        # the first one is judged again at the end (an object must stay right after later ones were built)
+        for m in spec["members"] + spec["members"][:1]:
+            run_unit(ctx, {"unit": u["unit"], "spec": m})
+        return
     nm = cat.name(spec)
     rng = random.Random(f"c01-{ctx.seed}-{spec['id']}")
     try:
